@@ -22,6 +22,11 @@ func Jobs(run *ev.Run, prop string) []Job {
 		j.BoundedOrder, j.Reorder = true, reorder
 		return j
 	}
+	if os.Getenv("VERIF_DKG_ONLY") == "jf3tr" { // development: one job only
+		j := q(dkgsys.JF, 3, 1, 0, []int{0}, 2)
+		j.TripleReps = true
+		return []Job{j}
+	}
 	if os.Getenv("VERIF_DKG_ONLY") == "jf3pc" { // development: one job only
 		j := q(dkgsys.JF, 3, 1, 0, []int{0}, 2)
 		j.PlusComplaint = true
@@ -51,7 +56,9 @@ func Jobs(run *ev.Run, prop string) []Job {
 		q(dkgsys.FVSSQ, 4, 2, 0, []int{0}, 2),
 		q(dkgsys.FVSSQ, 4, 2, 0, []int{0, 1}, 1), // dealer colluding with a receiver
 		q(dkgsys.FVSSQ, 5, 2, 0, []int{0, 4}, 1),
-		func() Job { j := q(dkgsys.JF, 3, 1, 0, []int{0}, 2); j.PlusComplaint = true; return j }(),
+		// all scripts with <= 2 deviations from the full grammar, plus all scripts with 3 deviations over
+		// one representative per behaviour class of every slot (subsumes "a bad dealer that also accuses")
+		func() Job { j := q(dkgsys.JF, 3, 1, 0, []int{0}, 2); j.TripleReps = true; return j }(),
 		q(dkgsys.JF, 3, 1, 0, []int{1}, 1),
 		q(dkgsys.JF, 3, 1, 0, []int{2}, 1),
 		b(dkgsys.JF, 4, 1, 0, []int{0}, 2, 2),
